@@ -707,6 +707,36 @@ fn small_other() -> BoxedStrategy<BuildCase> {
         .boxed()
 }
 
+/// An unrelated build whose input nearly collides with the history's own input: same length and same first/last
+/// bytes with one character moved to another class, or one character shorter/longer, or the same bytes under other
+/// options. A cache keyed on too little (length, a prefix, a hash of part of the input, the options only) returns
+/// the other build's answer for one of them.
+fn near_collision(input: Vec<u8>) -> BoxedStrategy<BuildCase> {
+    (any::<u16>(), 0usize..6, 0usize..3, prop_oneof![Just(None), (0usize..4).prop_map(|l| Some(Level::from_index(l)))], prop_oneof![Just(None), (0u8..8).prop_map(Some)])
+        .prop_map(move |(pos, kind, cls, level, mask)| {
+            let mut v = input.clone();
+            let repl = [b'7', b'K', b'k'][cls];
+            match kind {
+                0 | 1 if !v.is_empty() => {
+                    // keep the first byte: replace an interior / last character by one of another class
+                    let p = if v.len() == 1 { 0 } else { 1 + pick(pos, v.len() - 1) };
+                    v[p] = if v[p] == repl { [b'3', b'Q', b'q'][cls] } else { repl };
+                }
+                2 if !v.is_empty() => {
+                    v.pop();
+                }
+                3 => v.push(repl),
+                4 if !v.is_empty() => {
+                    let p = pick(pos, v.len());
+                    v[p] = if v[p] == repl { [b'3', b'Q', b'q'][cls] } else { repl };
+                }
+                _ => {}
+            }
+            BuildCase::new(v, Opts { mode: None, level, version: None, mask })
+        })
+        .boxed()
+}
+
 pub fn history_strategy() -> BoxedStrategy<History> {
     (0usize..3, prop_oneof![3 => 0usize..60, 1 => 0usize..600])
         .prop_flat_map(|(mi, len)| {
@@ -721,6 +751,7 @@ pub fn history_strategy() -> BoxedStrategy<History> {
                     2 => (0u8..8).prop_map(Op::SetMask),
                     4 => Just(Op::Build),
                     1 => small_other().prop_map(Op::BuildOther),
+                    2 => near_collision(input.clone()).prop_map(Op::BuildOther),
                     1 => Just(Op::RenderText),
                     2 => vec(svg_op(), 0..8).prop_map(Op::RenderSvg),
                     1 => vec(png_op(), 0..5).prop_map(Op::RenderPng),
